@@ -137,7 +137,7 @@ class NaiveBayes(BayesianNetwork):
         """
 
         if observed and self.dependent in observed:
-            return set(start)
+            return {start}
         else:
             return set(self.nodes()) - set(observed if observed else [])
 
